@@ -120,6 +120,9 @@ CORPUS = [
     (Leaf("Value", "factor_of", [4]), [0, 2]),
     (Leaf("Value", "has_factor", [2]), ["%z"]),
     (Leaf("Value", "has_factor", [2]), ["100%"]),
+    (Leaf("Value", "has_factor", [-3]), [9, "%c"]),            # "%c" % -3: OverflowError (an ArithmeticError that is not a ZeroDivisionError)
+    (Leaf("Value", "factor_of", ["%c"]), [-1, 65, 1114112]),
+    (Leaf("Key", "has_factor", [-5]), {"%c": 1, "a": 2}),
     (Leaf("Value", "has_factor", [0]), [3]),
     (Leaf("Value", "has_factor", [{}]), ["%(k)s"]),
     (Leaf("Value", "has_factor", [0.0]), [1.5, 2]),
